@@ -17,6 +17,8 @@
 #include <amgcl/mpi/partition/runtime.hpp>
 #include <amgcl/mpi/subdomain_deflation.hpp>
 #include <amgcl/mpi/block_preconditioner.hpp>
+#include <amgcl/mpi/direct_solver/skyline_lu.hpp>
+#include <Eigen/Dense>
 #include <amgcl/preconditioner/runtime.hpp>
 #include <set>
 #include "harness_main.hpp"
@@ -74,8 +76,8 @@ typedef amgcl::mpi::subdomain_deflation<
 typedef amgcl::mpi::make_solver<
     amgcl::mpi::block_preconditioner< amgcl::runtime::preconditioner<DBackend> >,
     amgcl::runtime::mpi::solver::wrapper<DBackend> > BPSolver;
-enum { K_MPI_AMG = 0, K_SDD = 1, K_BLOCK = 2 };
-static const char *kind_names[] = { "mpi::make_solver", "mpi::subdomain_deflation", "mpi::block_preconditioner" };
+enum { K_MPI_AMG = 0, K_SDD = 1, K_BLOCK = 2, K_DIRECT = 3 };
+static const char *kind_names[] = { "mpi::make_solver", "mpi::subdomain_deflation", "mpi::block_preconditioner", "mpi::direct::skyline_lu" };
 static const char *local_coarsening_names[] = { "ruge_stuben", "aggregation", "smoothed_aggregation", "smoothed_aggr_emin" };
 
 static const char *coarsening_names[] = { "aggregation", "smoothed_aggregation" };
@@ -108,7 +110,8 @@ Plan generate(uint64_t seed, uint64_t run, bool thorough) {
     p.set("fseed", (long)(r.next() >> 16), 0);
     p.set("nt", r.chance(0.7) ? 1 : 2, 1);
     { static const long nsc[] = { 1, 1, 2, 2, 2, 2, 3 }; p.set("nullspace", r.chance(0.35) ? nsc[r.below(7)] : 0, 0); }      // near-null-space vectors handed to the distributed coarsening
-    { double u = r.unit(); p.set("kind", u < 0.7 ? K_MPI_AMG : u < 0.85 ? K_SDD : K_BLOCK, 0); }
+    { double u = r.unit(); p.set("kind", u < 0.65 ? K_MPI_AMG : u < 0.79 ? K_SDD : u < 0.92 ? K_BLOCK : K_DIRECT, 0); }
+    if (p.get("kind") == K_DIRECT) p.set("n", r.range(8, 160), 8);
     p.set("local_relax_only", r.chance(0.4) ? 1 : 0, 0); p.set("local_coarsening", r.range(0, 2), 0); p.set("ndv", r.range(1, 2), 1);      // (no energy-minimising coarsening inside subdomains: its degenerate tiny levels are recorded under C02)
     p.set("aggr_block", 0, 0);      // pointwise (block_size = 2) aggregation of a scalar problem is not a meaningful configuration (singular coarse levels): only from an explicit plan
     draw_schedule(r, p.sched, (int)p.get("R"));
@@ -181,6 +184,16 @@ Result execute(const Plan &p) {
         gen::Csr S; S.n = r1 - r0; S.m = n; S.ptr.push_back(0);
         for (long i = r0; i < r1; ++i) { for (ptrdiff_t j = A.ptr[i]; j < A.ptr[i+1]; ++j) { S.col.push_back(A.col[j]); S.val.push_back(A.val[j]); } S.ptr.push_back((ptrdiff_t)S.col.size()); }
         auto dA = std::make_shared<DM>(comm, std::make_tuple((size_t)S.n, std::ref(S.ptr), std::ref(S.col), std::ref(S.val)));
+        if (kind == K_DIRECT) {
+            // the distributed direct solver on its own: consolidation on the master rank(s), solve, scatter; twice on one object
+            amgcl::mpi::direct::skyline_lu<double> D(comm, *dA);
+            std::vector<double> fl(f.begin() + r0, f.begin() + r1), xl(r1 - r0, std::numeric_limits<double>::quiet_NaN()), gl(fl), yl(r1 - r0, 0.0);
+            for (size_t q2 = 0; q2 < gl.size(); ++q2) gl[q2] = 1.0 + 0.5 * gl[q2];
+            D(gl, yl); D(fl, xl);
+            iters[rank] = 0; resid[rank] = 0;
+            for (long i = r0; i < r1; ++i) x[i] = xl[i - r0];
+            return;
+        }
         if (kind != K_MPI_AMG) {
             boost::property_tree::ptree q; const char *pre = kind == K_SDD ? "local." : "precond.";
             if (p.get("local_relax_only")) { q.put(std::string(pre) + "class", "relaxation"); q.put(std::string(pre) + "type", relax_names[relax]); }
@@ -240,11 +253,19 @@ Result execute(const Plan &p) {
             long double rr = 0, ff = 0, ainf = 0, xinf = 0, finf = 0;
             for (long i = 0; i < n; ++i) { long double t = f[i], rs = 0; for (ptrdiff_t j = A.ptr[i]; j < A.ptr[i+1]; ++j) { t -= (long double)A.val[j] * x[A.col[j]]; rs += std::fabs((long double)A.val[j]); } rr += t * t; ff += (long double)f[i] * f[i]; ainf = std::max(ainf, rs); xinf = std::max(xinf, (long double)std::fabs(x[i])); finf = std::max(finf, (long double)std::fabs(f[i])); }
             double rstar = (double)std::sqrt((double)(rr / (ff > 0 ? ff : 1))), tol = 1e-8;
+            if (kind == K_DIRECT) {
+                // exact solution of the gathered system (dense LU in the harness), whichever ranks hold the factorisation
+                Eigen::MatrixXd Dm = Eigen::MatrixXd::Zero(n, n); Eigen::VectorXd fv(n); for (long i = 0; i < n; ++i) { fv[i] = f[i]; for (ptrdiff_t j = A.ptr[i]; j < A.ptr[i+1]; ++j) Dm(i, A.col[j]) += A.val[j]; }
+                Eigen::VectorXd xe = Dm.partialPivLu().solve(fv); double worst = 0, sc = 1e-300; for (long i = 0; i < n; ++i) { worst = std::max(worst, std::fabs(x[i] - xe[i])); sc = std::max(sc, std::fabs(xe[i])); }
+                if (!(worst <= 1e-9 * sc)) res.fail(sig("direct-solver-exact", "gathered-system", fmt("distributed skyline_lu differs from the dense solution by %.3g (scale %.3g, n=%ld, %d ranks)", worst, sc, n, R)));
+                res.counts["direct_solver_worlds"]++;
+            }
             long maxrow = 1; for (long i = 0; i < n; ++i) maxrow = std::max<long>(maxrow, A.ptr[i+1] - A.ptr[i]);
             double delta = (double)(200.0L * (iters[0] + 1) * 3.0L * (maxrow + 1) * 1.2e-16L * (ainf * xinf / (finf > 0 ? finf : 1) + 1));      // as in C01: row length, not n
             bool finite = std::isfinite(rstar) && std::isfinite((double)xinf);
             if (getenv("C12_DEBUG") && kind != K_MPI_AMG) fprintf(stderr, "kind %ld R %d ndv %ld relax_only %ld reported %.3g true %.3g delta %.3g iters %.0f\n", kind, R, p.get("ndv"), p.get("local_relax_only"), resid[0], rstar, delta, iters[0]);
-            if (!finite) { if (std::isfinite(resid[0]) && resid[0] < 1) res.fail(sig("truthful-residual", "nonfinite-solution-reported-finite", fmt("gathered solution is not finite, reported residual %.3g", resid[0]))); res.counts["nonfinite_outcomes"]++; }
+            if (kind == K_DIRECT) { /* judged above */ }
+            else if (!finite) { if (std::isfinite(resid[0]) && resid[0] < 1) res.fail(sig("truthful-residual", "nonfinite-solution-reported-finite", fmt("gathered solution is not finite, reported residual %.3g", resid[0]))); res.counts["nonfinite_outcomes"]++; }
             else if (delta < 0.1 * tol) {
                 if (resid[0] < tol && !(rstar < 1.05 * tol + delta)) res.fail(sig("truthful-residual", "reported-converged-but-is-not", fmt("reported %.6g after %.0f iterations, true global residual %.6g", resid[0], iters[0], rstar)));
                 else if (!(resid[0] < tol && rstar < tol) && !(std::fabs(resid[0] - rstar) <= 0.05 * std::max(resid[0], rstar) + delta)) res.fail(sig("truthful-residual", "reported-differs-from-true", fmt("reported %.6g, true %.6g after %.0f iterations", resid[0], rstar, iters[0])));
@@ -305,7 +326,7 @@ Result execute(const Plan &p) {
             }
             // (worlds with near-null-space vectors run on a hierarchy truncated by max_levels: no convergence promise there)
             // (subdomain deflation / block preconditioner: promised only with a multigrid inside the subdomains, a bare smoother is no solver)
-            if (finite && nscols == 0 && varied.empty() && !(kind != K_MPI_AMG && p.get("local_relax_only")) && (solver == 7 ? !(resid[0] < 1.0) : !(resid[0] < tol))) res.fail(sig("converges-on-spd", solver == 7 ? "richardson-converges" : "within-200-iterations", fmt("%.0f iterations, residual %.3g (n=%ld, %d ranks)", iters[0], resid[0], n, R)));
+            if (finite && kind != K_DIRECT && nscols == 0 && varied.empty() && !(kind != K_MPI_AMG && p.get("local_relax_only")) && (solver == 7 ? !(resid[0] < 1.0) : !(resid[0] < tol))) res.fail(sig("converges-on-spd", solver == 7 ? "richardson-converges" : "within-200-iterations", fmt("%.0f iterations, residual %.3g (n=%ld, %d ranks)", iters[0], resid[0], n, R)));
         }
     }
     res.nontrivial = R >= 2 && out.stats.messages >= 1;
